@@ -219,13 +219,21 @@ func (g *gen) mixedInterpreted() string {
 		if !g.assertable(subj, t) {
 			continue
 		}
-		conf := false
+		conf, conf19 := false, false
 		for _, v := range vals {
 			if g.confusable(subj, v.d, t) {
 				conf = true
 			}
+			// F-C09-19: in these switches (multi-type cases) the confusion of F-C09-7 also
+			// happens when the subject is an interpreted interface
+			if !v.d.matches(t) && v.d.basic != "nil" && g.shapeOf(v.d.ti, v.d.ptr, v.d.basic) == g.shapeOf(t.ti, t.ptr, t.basic) {
+				conf19 = true
+			}
 		}
 		if conf && excl("F-C09-7") {
+			continue
+		}
+		if conf19 && !conf && excl("F-C09-19") {
 			continue
 		}
 		cand = append(cand, t)
